@@ -160,6 +160,16 @@ pub const TEMPLATES: &[&str] = &[
     "type A < T , U , V ... , W ... > = ( T , U ) -> ( V ... )",
     "local function f < T ... > ( ... : T ... ) : T ... end",
     "local a : ( T ... ) -> ( U ... ) = f",
+    // constructs written over several lines: a comment inserted at the start of a line leads the token that follows it
+    "return `{ a\n}{ b\n}c{\nd }`",
+    "return {\n1 ,\n[ 2 ] = 3 ,\nk = 4\n}",
+    "f (\n1 ,\n2\n)\na : b (\n)",
+    "local function f (\na ,\n...\n)\nreturn a\nend",
+    "if a\nthen\nelseif b\nthen\nelse\nend",
+    "for i = 1 ,\n2 ,\n3\ndo\nend\nfor k ,\nv in\nx\ndo\nend",
+    "local a : {\nx : number ,\n[ string ] : T\n} = t",
+    "type F = <\nT\n> (\nT\n) ->\nT",
+    "return (\na\n) , a [\n1\n] , a\n. b , # \na",
     // fewer values than variables
     "local a , b = ...",
     "const a , b = ...",
